@@ -37,3 +37,7 @@ M("getb-falsy-bound", "base.py", "    lb, ub = old_bound_to_new(bounds)\n",
   "    lb = np.array([lo or -np.inf for lo, _ in bounds], dtype=np.float64)\n    ub = np.array([up or np.inf for _, up in bounds], dtype=np.float64)\n", ["GETB"], canary=True)
 Q("getb-explicit-none", "base.py", "    lb, ub = old_bound_to_new(bounds)\n",
   "    lb = np.array([-np.inf if lo is None else lo for lo, _ in bounds], dtype=np.float64)\n    ub = np.array([np.inf if up is None else up for _, up in bounds], dtype=np.float64)\n", ["GETB"])
+
+# ---- GETB (round 4): the converted vectors are rewritten afterwards
+M("getb-huge-means-infinite", "base.py", "    lb, ub = old_bound_to_new(bounds)\n", "    lb, ub = old_bound_to_new(bounds)\n    ub = np.where(ub >= 1e20, np.inf, ub)\n", ["GETB"])
+Q("getb-astype", "base.py", "    lb, ub = old_bound_to_new(bounds)\n", "    lb, ub = old_bound_to_new(bounds)\n    lb = lb.astype(float)\n", ["GETB"])
